@@ -875,8 +875,12 @@ class Interp:
                 ci = self.prog.cls(recv.cls)
             except AnalysisError:
                 ci = None
-            if ci is not None and attr in ci.methods:
-                return Fn(ci.methods[attr].qualname, recv)
+            if ci is not None:
+                # a repo class: methods are callable values, data attributes are unknown (possibly None)
+                if attr in ci.methods:
+                    m = ci.methods[attr]
+                    return TOP if m.is_property else Fn(m.qualname, recv)
+                return TOP
             return Fn("method:" + attr, recv)
         if isinstance(recv, Fn) and recv.target.startswith(("extern:", "module:")):
             return Fn(recv.target.split(":", 1)[0] + ":" + recv.target.split(":", 1)[1] + "." + attr)
